@@ -536,3 +536,38 @@ func (p *Prog) TrailString(f *ssa.Function, trail []int) string {
 	}
 	return strings.Join(s, "→")
 }
+
+// PathGuards renders the facts of a path as guards (for definitional rules).
+func (s *WState) PathGuards(p *Prog) []Guard {
+	var out []Guard
+	for v, b := range s.boolF {
+		out = append(out, p.unfold(v, b, nil, 0)...)
+	}
+	for v, f := range s.nilF {
+		nilc := &Sym{Kind: "const", Name: "nil"}
+		out = append(out, Guard{Cond: &Sym{Kind: "binop", Name: "==", Args: []*Sym{p.Sym(v), nilc}}, V: v, Val: f > 0})
+	}
+	return out
+}
+
+// OkExits enumerates the non-error exits of f with the guards known on each path.
+// For functions without an error result every return is an ok exit.
+func (p *Prog) ExitsWithGuards(f *ssa.Function) (ok [][]Guard, errs [][]Guard, okRets, errRets []*ssa.Return, aborted bool) {
+	wk := &Walker{P: p, Fn: f, OnExit: func(in ssa.Instruction, st *WState) {
+		ret, isRet := in.(*ssa.Return)
+		if !isRet {
+			return
+		}
+		cls, _ := RetClass(st, ret)
+		gs := st.PathGuards(p)
+		if cls == "ok" {
+			ok = append(ok, gs)
+			okRets = append(okRets, ret)
+		} else {
+			errs = append(errs, gs)
+			errRets = append(errRets, ret)
+		}
+	}}
+	wk.Run()
+	return ok, errs, okRets, errRets, wk.Aborted
+}
